@@ -116,6 +116,122 @@ def _judge(run, rule, mi, name, fn, target, value, st, cont_txt, kind, edges, pa
     run.ok(rule, '%s cache %s' % (name, cont_txt), "key '%s' covers %s" % (norm(target.slice), sorted(vd)))
 
 
+def _self_fields(expr, methods, depth=3, seen=None):
+    """self.<field> names read by expr, following calls of methods of the same class"""
+    seen = seen if seen is not None else set()
+    out = set()
+    for n in ast.walk(expr):
+        if isinstance(n, ast.Attribute) and isinstance(n.value, ast.Name) and n.value.id == 'self':
+            if n.attr in methods:
+                if depth > 0 and n.attr not in seen:
+                    seen.add(n.attr)
+                    out |= _self_fields(methods[n.attr], methods, depth - 1, seen)
+            else:
+                out.add(n.attr)
+    return out
+
+
+def _class_level(run, rule, mi, cname, cnode):
+    """A container defined in the class body is shared by all instances: a memo kept there must be keyed by the instance configuration
+    (self.<fields>) its values are computed from, not only by the call arguments."""
+    shared = {t.id for st in cnode.body if isinstance(st, ast.Assign) and _is_container(st.value) for t in st.targets if isinstance(t, ast.Name)}
+    if not shared:
+        return
+    methods = {f.name: f for f in cnode.body if isinstance(f, ast.FunctionDef)}
+    own = set()
+    for f in methods.values():
+        for st in ast.walk(f):
+            if isinstance(st, ast.Assign) and _is_container(st.value):
+                for t in st.targets:
+                    if isinstance(t, ast.Attribute) and isinstance(t.value, ast.Name) and t.value.id == 'self':
+                        own.add(t.attr)      # re-created per instance: not shared
+    for name, fn in methods.items():
+        edges = None
+        for st in ast.walk(fn):
+            if not (isinstance(st, ast.Assign) and isinstance(st.targets[0], ast.Subscript)):
+                continue
+            b = st.targets[0].value
+            if not (isinstance(b, ast.Attribute) and isinstance(b.value, ast.Name) and b.value.id in ('self', 'cls', cname) and b.attr in shared - own):
+                continue
+            if not _looks_up(fn, b):
+                continue
+            if edges is None:
+                edges = _value_edges(fn)
+            run.subject(rule)
+            # fields the value depends on / fields present in the key (through locals)
+            def expand(e):
+                out, work, seenn = [e], [e], set()
+                while work:
+                    x = work.pop()
+                    for n in ast.walk(x):
+                        if isinstance(n, ast.Name) and n.id in edges and n.id not in seenn:
+                            seenn.add(n.id)
+                            for v in edges[n.id]:
+                                out.append(v)
+                                work.append(v)
+                return out
+            vf = set().union(*[_self_fields(x, methods) for x in expand(st.value)]) - {b.attr}
+            kf = set().union(*[_self_fields(x, {}) for x in expand(st.targets[0].slice)])
+            missing = sorted(f for f in vf - kf if f.startswith('_') or True)
+            if missing:
+                run.fail(rule, '%s|%s.%s|shared-cache-key:%s' % (mi.name, cname, name, b.attr), mi.relpath, st.lineno,
+                         "%s.%s memoises %s in the class-level container %s, which all instances share, under the key '%s'; the value also depends on the "
+                         "instance configuration %s: an instance configured differently (or the same one after that configuration changed) is served the "
+                         "entry computed for another" % (cname, name, norm(st.value)[:40], b.attr, norm(st.targets[0].slice), ['self.' + f for f in missing]))
+            else:
+                run.ok(rule, '%s.%s shared cache %s' % (cname, name, b.attr), 'key covers the instance fields the value reads')
+
+
+def local_memos(run, rule, mi, name, fn):
+    """A dictionary created in the function and used as a memo inside a loop: its key must contain every loop-varying operand of the value."""
+    n = 0
+    local = {st.targets[0].id for st in ast.walk(fn) if isinstance(st, ast.Assign) and len(st.targets) == 1 and isinstance(st.targets[0], ast.Name)
+             and _is_container(st.value)}
+    if not local:
+        return 0
+    edges = _value_edges(fn)
+    for lp in [l for l in ast.walk(fn) if isinstance(l, ast.For)]:
+        lvars = {x.id for x in ast.walk(lp.target) if isinstance(x, ast.Name)}
+        for st in ast.walk(lp):
+            if not (isinstance(st, ast.Assign) and isinstance(st.targets[0], ast.Subscript) and isinstance(st.targets[0].value, ast.Name)
+                    and st.targets[0].value.id in local):
+                continue
+            cont = st.targets[0].value
+            if not _looks_up(lp, cont):
+                continue
+            # the innermost loop only (outer loops see the same store again)
+            inner = [l for l in ast.walk(lp) if isinstance(l, ast.For) and l is not lp and any(x is st for x in ast.walk(l))]
+            if inner:
+                continue
+
+            def varying(e):
+                out, work, seen = set(), [e], set()
+                while work:
+                    x = work.pop()
+                    for n_ in ast.walk(x):
+                        if isinstance(n_, ast.Subscript) and any(isinstance(y, ast.Name) and y.id in lvars for y in ast.walk(n_.slice)):
+                            out.add(norm(n_))
+                        elif isinstance(n_, ast.Name) and n_.id in edges and n_.id not in seen and n_.id not in lvars and n_.id != cont.id:
+                            seen.add(n_.id)
+                            # only locals defined inside the loop vary with it
+                            for v in edges[n_.id]:
+                                if any(v is z for z in ast.walk(lp)):
+                                    work.append(v)
+                return out
+            kv, vv = varying(st.targets[0].slice), varying(st.value)
+            n += 1
+            run.subject(rule)
+            missing = sorted(vv - kv)
+            if missing:
+                run.fail(rule, '%s|%s|local-memo-key:%s' % (mi.name, name, cont.id), mi.relpath, st.lineno,
+                         "%s memoises %s in '%s' under the key '%s' inside the loop over %s, but the value also depends on %s, which changes from one "
+                         "iteration to the next: points that agree on the key but differ in %s get the first point's result"
+                         % (name, norm(st.value)[:40], cont.id, norm(st.targets[0].slice), sorted(lvars), missing, missing[0]))
+            else:
+                run.ok(rule, '%s local memo %s' % (name, cont.id), "key covers the loop-varying operands %s" % sorted(vv))
+    return n
+
+
 def check_caches(run, modules, rule, functions=None):
     """modules: iterable of ModuleInfo. Reports stores into shared containers whose key misses a dependency."""
     run.describe(rule, 'values cached in module-level or instance-held containers are keyed by every parameter they depend on, at the '
@@ -127,6 +243,7 @@ def check_caches(run, modules, rule, functions=None):
         ncont += len(containers)
         fns = list((n, f, None) for n, f in mi.functions.items())
         for cname, cnode in mi.classes.items():
+            _class_level(run, rule, mi, cname, cnode)
             inst = set()
             for f in cnode.body:
                 if isinstance(f, ast.FunctionDef):
@@ -142,6 +259,7 @@ def check_caches(run, modules, rule, functions=None):
         for name, fn, inst in fns:
             if functions is not None and name not in functions:
                 continue
+            nstores += local_memos(run, rule, mi, name, fn)
             if not containers and not inst:
                 continue
             params = set(params_of(fn)) - {'self', 'cls'}
